@@ -14,35 +14,38 @@ Clean     == Raw[1].clean      \* no fault injected: nothing may be a setup fail
 \* actual host, port and certificate": a request sent for batch b must carry exactly it
 \* Client loss (RunnerCL): ClientDies and Skip are silent, possible only in runs with an injected client fault; a dead
 \* client receives nothing and no batch is started for it.
-VARIABLES l, pid, crt
+VARIABLES l, pid, crt, hst
 Ev == Raw[l]
 CliFault == Raw[1].cliFault     \* a client fault was injected
-TInit == InitCL /\ l = 2 /\ pid = [b \in Batches |-> 0] /\ crt = [b \in Batches |-> ""]
+\* hst[b]: the host the server of batch b reported ("" = not reported: the default host, 127.0.0.1)
+HostOf(h) == IF h = "" THEN "127.0.0.1" ELSE h
+TInit == InitCL /\ l = 2 /\ pid = [b \in Batches |-> 0] /\ crt = [b \in Batches |-> ""] /\ hst = [b \in Batches |-> ""]
 Keep == UNCHANGED <<clientDead, skipped>>
 TNext ==
   \/ /\ \E b \in Batches : (~clientDead /\ Acquire(b)) \/ StartFailed(b) \/ Abandon(b) \/ Release(b)
-     /\ Keep /\ UNCHANGED <<l, pid, crt>>
-  \/ CliFault /\ (ClientDies \/ \E b \in Batches : Skip(b)) /\ UNCHANGED <<l, pid, crt>>
+     /\ Keep /\ UNCHANGED <<l, pid, crt, hst>>
+  \/ CliFault /\ (ClientDies \/ \E b \in Batches : Skip(b)) /\ UNCHANGED <<l, pid, crt, hst>>
   \/ /\ l <= Len(Raw) /\ l' = l + 1 /\ Keep
-     /\ \/ Ev.e = "Started" /\ UNCHANGED crt
+     /\ \/ Ev.e = "Started" /\ UNCHANGED <<crt, hst>>
              /\ \E b \in Batches : Plan[b].inst = Ev.inst /\ Started(b) /\ pid' = [pid EXCEPT ![b] = Ev.pid]
-        \/ Ev.e = "Gone" /\ \E b \in Batches : pid[b] = Ev.pid /\ Gone(b) /\ UNCHANGED <<pid, crt>>
+        \/ Ev.e = "Gone" /\ \E b \in Batches : pid[b] = Ev.pid /\ Gone(b) /\ UNCHANGED <<pid, crt, hst>>
         \/ Ev.e = "Up"   /\ UNCHANGED pid
              /\ \E b \in Batches : pid[b] = Ev.pid /\ Plan[b].inst = Ev.inst /\ Up(b, Ev.addr) /\ crt' = [crt EXCEPT ![b] = Ev.cert]
-        \/ Ev.e = "Send" /\ Ev.probe /\ Ev.hdr /\ ~clientDead /\ UNCHANGED <<pid, crt>>
-             /\ \E b \in Batches : Send(b, Ev.name, Ev.addr, Ev.inst) /\ Ev.cert = crt[b]
+                                  /\ hst' = [hst EXCEPT ![b] = HostOf(Ev.host)]
+        \/ Ev.e = "Send" /\ Ev.probe /\ Ev.hdr /\ ~clientDead /\ UNCHANGED <<pid, crt, hst>>
+             /\ \E b \in Batches : Send(b, Ev.name, Ev.addr, Ev.inst) /\ Ev.cert = crt[b] /\ Ev.host = hst[b]
         \* a run with a failing client: the client logs a request when it has read it, the runner moves on as soon as it
         \* notices the failure - so a request that was written before the batch gave up may be logged after the batch was
         \* abandoned (even after its server was told to stop).  Such a late Send turns a "never sent" case into a sent one.
-        \/ Ev.e = "Send" /\ CliFault /\ Ev.hdr /\ UNCHANGED <<pid, crt>>
+        \/ Ev.e = "Send" /\ CliFault /\ Ev.hdr /\ UNCHANGED <<pid, crt, hst>>
              /\ \E b \in Batches : /\ Ev.name \in Plan[b].cases /\ Ev.name \notin sent /\ Ev.name \in setupFailed
                                    /\ srv[b] \in {"up", "stopped", "released"} /\ addr[b] = Ev.addr
-                                   /\ Ev.inst = Plan[b].inst /\ Ev.cert = crt[b]
+                                   /\ Ev.inst = Plan[b].inst /\ Ev.cert = crt[b] /\ Ev.host = hst[b]
              /\ sent' = sent \cup {Ev.name} /\ setupFailed' = setupFailed \ {Ev.name}
              /\ UNCHANGED <<srv, addr, sem, nextAddr, finished, proc>>
-        \/ Ev.e = "Stop" /\ UNCHANGED <<pid, crt>>
+        \/ Ev.e = "Stop" /\ UNCHANGED <<pid, crt, hst>>
              /\ \E b \in Batches : pid[b] = Ev.pid /\ (IF srv[b] = "up" THEN Stop(b) ELSE (srv[b] = "stopped" /\ UNCHANGED vars))
-        \/ Ev.e = "Finish" /\ Finish /\ UNCHANGED <<pid, crt>>
+        \/ Ev.e = "Finish" /\ Finish /\ UNCHANGED <<pid, crt, hst>>
              /\ Range(Ev.outcomes) = AllCases \ SkippedCases     \* exactly the permutations of the started batches have an outcome
              \* and exactly the never-sent ones are setup failures (with a failed client, requests it received but never
              \* answered are setup failures as well)
